@@ -367,6 +367,19 @@ def search(ctx):
     if len(set(sigs.values())) > 1:
         return {'kind': 'nondet', 'cores': 2, 'stripes': 2, 'mask': True, 'delays': list(sigs), 'rows': rows, 'cols': cols,
                 'step': step, 'box': box, 'what': 'bit-wise different maps under different delays'}
+    # a stripe that is LATE by much more than any sensible time-out (the others wait at the barrier all that time): the call must
+    # still return the same maps.  Only here (the search runs when a tie is broken), because it costs 35 s per phase.
+    base = sigs.get(json.dumps({}))
+    for ph in ('start', 'pass2'):
+        delay = {f'0:{ph}': 35}
+        res, ev = run_bane(ctx, path, step, box, 2, 2, True, {'delay': delay})
+        d = {'cores': 2, 'stripes': 2, 'mask': True, 'delays': [json.dumps(delay)], 'rows': rows, 'cols': cols, 'step': step, 'box': box}
+        if res is None:
+            return {'kind': 'hang', **d, 'what': f'stripe 0 is 35 s late at {ph}: filter_image did not return within {WATCHDOG}s'}
+        if res['raised']:
+            return {'kind': 'raise', **d, 'what': f'stripe 0 is 35 s late at {ph}: ' + res['raised']}
+        if base and (res['bkg_sha'], res['rms_sha']) != base:
+            return {'kind': 'nondet', **d, 'delays': [json.dumps({}), json.dumps(delay)], 'what': f'maps differ when stripe 0 is 35 s late at {ph}'}
     return None
 
 
